@@ -81,8 +81,24 @@ func TestVerifC24Varint(t *testing.T) {
 			}
 			return
 		}
+		// destination buffers: fresh, or a reused scratch buffer whose spare capacity holds stale non-zero bytes
+		dirty := rapid.Bool().Draw(rt, "reused_buffer_with_stale_bytes")
+		mkDst := func() []byte {
+			if !dirty {
+				return append([]byte(nil), prefix...)
+			}
+			b := make([]byte, len(prefix)+24)
+			for i := range b {
+				b[i] = 0xff
+			}
+			copy(b, prefix)
+			return b[:len(prefix)]
+		}
+		if dirty {
+			st.Class("destination-with-stale-capacity")
+		}
 		// Append: minimal encoding of Len(x) bytes, prefix kept, decodes back to x
-		in := append([]byte(nil), prefix...)
+		in := mkDst()
 		out := quicvarint.Append(in, x)
 		if !bytes.HasPrefix(out, prefix) {
 			st.Violation(rt, "Append(%#x) clobbered the prefix: %x", x, out)
@@ -111,7 +127,7 @@ func TestVerifC24Varint(t *testing.T) {
 		}
 		// AppendWithLen
 		var wl []byte
-		p := vfCatch(func() { wl = quicvarint.AppendWithLen(append([]byte(nil), prefix...), x, protocol.ByteCount(w)) })
+		p := vfCatch(func() { wl = quicvarint.AppendWithLen(mkDst(), x, protocol.ByteCount(w)) })
 		if rl > w {
 			st.Class("width-too-small")
 			if p == nil {
